@@ -46,8 +46,9 @@ def run(tier, v):
     r = vlib.tlc("MC_C15", pid=PID, workers=8, tag_sink=sink, timeout=1800, coverage=False)
     cfgs = stat["cfgs"]
     if tier != "thorough":
-        shapes = [s for s in shapes if s["shape"]["ihl"] in (0, 2, 4, 5, 6, 15)]
+        shapes = [s for s in shapes if s["shape"]["ihl"] in (0, 2, 4, 5, 6, 15) and (s["shape"]["vnib"] == s["shape"]["ver"] or s["shape"]["ihl"] == 5)]
     ana, pool, meta = [], [], {}
+    empty_ref = []
     for si, s in enumerate(shapes):
         for crate, key in (("tcp", "tcp"), ("http", "http"), ("tls", "tls"), ("uni", "http"), ("uni", "tls")):
             t = s[key]
@@ -60,11 +61,16 @@ def run(tier, v):
                 base = {"crate": crate, "matcher": True, "cfg": {"http": True, "tcp": True, "tls": True, "matcher": True}}
                 ana.append(dict(base, id="F|%d|%s|%s|%d" % k, frames=frames, filter=cfg))
                 ana.append(dict(base, id="U|%d|%s|%s|%d" % k, frames=sub, filter=None))
-                # the tls pool routes Ethernet and raw-IP frames only (others are dropped at dispatch, filter or not)
-                if crate != "uni" and not (crate == "tls" and s["shape"]["link"] == "null") and (tier == "thorough" or ci % 4 == 0):
+                if crate != "uni" and (tier == "thorough" or ci % 4 == 0):
                     for nw in (1, 3):
                         pool.append({"id": "P%d|%d|%s|%s|%d" % ((nw,) + k), "crate": crate, "workers": nw, "queue": 64, "batch": 2, "timeout_ms": 5, "dispatchers": [frames], "filter": cfg,
                                      "matcher": True, "perturb": 0})
+                        # the same pool without a filter on the admitted sub-trace (the reference for the parallel case)
+                        if sub:
+                            pool.append({"id": "Q%d|%d|%s|%s|%d" % ((nw,) + k), "crate": crate, "workers": nw, "queue": 64, "batch": 2, "timeout_ms": 5, "dispatchers": [sub], "filter": None,
+                                         "matcher": True, "perturb": 0})
+                        else:
+                            empty_ref.append(("Q%d" % nw,) + k)
     areq = os.path.join(wd, "ana.req")
     vlib.write_ndjson(areq, ana)
     aout = os.path.join(wd, "ana.out")
@@ -80,7 +86,7 @@ def run(tier, v):
     preq = os.path.join(wd, "pool.req")
     vlib.write_ndjson(preq, pool)
     pout = os.path.join(wd, "pool.out")
-    vlib.run_hv("pool", preq, pout, timeout=3000)
+    vlib.run_hv_split("pool", preq, pout, parts=8, timeout=3000)
     for o in vlib.read_ndjson(pout):
         kind, si, crate, key, ci = o["id"].split("|")
         k = (int(si), crate, key, int(ci))
@@ -93,6 +99,8 @@ def run(tier, v):
         if crate == "http":
             rs = [{"req": x["req"], "resp": x["resp"]} for x in rs]
         res[(kind,) + k] = sorted(nonempty(crate, rs))
+    for e in empty_ref:
+        res[e] = []
     n = n_nontriv = 0
     samples = []
     for k, m in meta.items():
@@ -107,10 +115,9 @@ def run(tier, v):
             n_nontriv += bool(want) or bool(got)
             w = want
             if kind != "F":
-                # pool results of the http crate carry matcher output the same way; compare as multisets of request/response signatures only when identical projection is available
-                if m["analyzer"] == "http":
+                w = res.get(("Q" + kind[1:],) + k)      # same pool, no filter, admitted sub-trace
+                if w is None:
                     continue
-                w = sorted(want)
             if got == w:
                 if len(samples) < 3 and want and n % 301 == 1:
                     samples.append({"shape": m["shape"], "analyzer": m["analyzer"], "filter": m["filter"], "frames_admitted": len(m["admitted_subtrace"]), "results": len(want)})
